@@ -187,3 +187,42 @@ Proof.
   - apply sel_upd_other.
   - intros u ops s2 HF Hx. rewrite (xexec_frame pred u ops _ s2 HF Hx). split; reflexivity.
 Qed.
+
+(** the same for stack and inplace_vector histories *)
+Theorem st_step_frame : forall u s o s' out, st_touches_only u o = true ->
+  st_step s o = Ok (s', out) -> sel (negb u) s' = sel (negb u) s.
+Proof.
+  intros u s o s' out Ht H.
+  destruct o; cbn [st_touches_only] in Ht; try discriminate Ht;
+    apply eqb_eq' in Ht; subst u; cbn [st_step] in H; brk H;
+    try (injection H as <- _; try reflexivity; apply sel_upd_other).
+Qed.
+
+Theorem st_exec_frame : forall u ops s s', Forall (fun o => st_touches_only u o = true) ops ->
+  st_exec s ops = Some s' -> sel (negb u) s' = sel (negb u) s.
+Proof.
+  induction ops as [|o rest IH]; intros s s' HF H; cbn [st_exec] in H.
+  - injection H as <-. reflexivity.
+  - inversion HF as [|? ? Ho Hrest]; subst.
+    destruct (st_step s o) as [[s1 out]| | |] eqn:E; try discriminate H.
+    rewrite (IH s1 s' Hrest H). apply (st_step_frame u s o s1 out Ho E).
+Qed.
+
+Theorem iv_xstep_frame : forall u s o s' out, iv_touches_only u o = true ->
+  iv_xstep s o = Ok (s', out) -> sel (negb u) s' = sel (negb u) s.
+Proof.
+  intros u s o s' out Ht H.
+  destruct o as [o| | | | | | | | | | | | | | |]; [destruct o|..]; cbn [iv_touches_only] in Ht; try discriminate Ht;
+    apply eqb_eq' in Ht; subst u; cbn [iv_xstep iv_step] in H; brk H;
+    try (injection H as <- _; try reflexivity; apply sel_upd_other).
+Qed.
+
+Theorem iv_xexec_frame : forall u ops s s', Forall (fun o => iv_touches_only u o = true) ops ->
+  iv_xexec s ops = Some s' -> sel (negb u) s' = sel (negb u) s.
+Proof.
+  induction ops as [|o rest IH]; intros s s' HF H; cbn [iv_xexec] in H.
+  - injection H as <-. reflexivity.
+  - inversion HF as [|? ? Ho Hrest]; subst.
+    destruct (iv_xstep s o) as [[s1 out]| | |] eqn:E; try discriminate H.
+    rewrite (IH s1 s' Hrest H). apply (iv_xstep_frame u s o s1 out Ho E).
+Qed.
